@@ -138,6 +138,40 @@ func fingerprintDocument(doc *ast.Document, op *ast.OperationDefinition, operati
 	w.writeVariableDefs(op.VariableDefinitions)
 	w.writeDirectives(op.Directives)
 	w.writeSelectionSet(op.SelectionSet)
+	// The cached result also stands for the validation of the whole
+	// document, so the other operations and the fragments the selected
+	// operation does not reach are part of the key as well.
+	for _, def := range doc.Definitions {
+		switch d := def.(type) {
+		case *ast.OperationDefinition:
+			if d == op {
+				continue
+			}
+			w.writeString("|OP:")
+			w.writeString(string(d.Operation))
+			w.writeByte(0)
+			if d.Name != nil {
+				w.writeString(d.Name.Value)
+			}
+			w.writeByte(0)
+			w.writeVariableDefs(d.VariableDefinitions)
+			w.writeDirectives(d.Directives)
+			w.writeSelectionSet(d.SelectionSet)
+		case *ast.FragmentDefinition:
+			if d.Name == nil || w.visited[d.Name.Value] {
+				continue
+			}
+			w.writeString("|FR:")
+			w.writeString(d.Name.Value)
+			w.writeByte(0)
+			w.writeFragmentBody(d.Name.Value)
+		default:
+			if def != nil {
+				w.writeString("|DEF:")
+				w.writeString(def.GetKind())
+			}
+		}
+	}
 	return strconv.FormatUint(h.Sum64(), 16)
 }
 
